@@ -58,6 +58,6 @@ def miri_stage(ck, progs):
                     continue
                 ck.inconclusive.append("miri process died without a UB report on %s: %s" % (name, text[-300:]))
                 continue
-            where = re.search(r"--> (\S+):(\d+):\d+", text)
+            where = re.search(r"--> (\S+):(\d+):\d+", text[m.start():])
             sig = "MiriUB(%s @ %s)" % (m.group(1)[:80], where.group(1).split("/")[-1] if where else "?")
             ck.violation(sig, {"program": name, "source": src, "modules": mods, "what": text[:4000]})
